@@ -165,6 +165,21 @@ def guard_chain(pm, node, stop):
     return out
 
 
+_BRANCHES = [False]
+
+
+class branch_locals(object):
+    """``with branch_locals():`` - inside, expand_locals() also reads through names bound once in each arm of an if/else
+    (as conditional expressions)."""
+
+    def __enter__(self):
+        self._old = _BRANCHES[0]
+        _BRANCHES[0] = True
+
+    def __exit__(self, *a):
+        _BRANCHES[0] = self._old
+
+
 def single_assignments(fnode):
     """{name: value expression} for local names assigned exactly once in the function (plain ``name = expr``), and never
     augmented / deleted / used as a loop or with target."""
@@ -215,7 +230,22 @@ def single_assignments(fnode):
         vs = allvals.get(k, [])
         return len(vs) == count[k] and all(path(v) for v in vs) and len({ast.dump(v) for v in vs}) == 1
     # a name bound to a path (an alias of an existing object) may be mutated through: it is still that object
-    return {k: v for k, v in val.items() if once(k) and k not in params and (k not in mutated or path(v)) and not container(v)}
+    out = {k: v for k, v in val.items() if once(k) and k not in params and (k not in mutated or path(v)) and not container(v)}
+    # a name bound once in each arm of one if/else (and nowhere else) is a conditional expression: `if c: p = a  else: p = b`
+    # (only on request - see branch_locals(): most rules want to see the name, not the case split)
+    for n in (ast.walk(fnode) if _BRANCHES[0] else ()):
+        if isinstance(n, ast.If) and n.orelse:
+            def arm(stmts):
+                d = {}
+                for st in stmts:
+                    if isinstance(st, ast.Assign) and len(st.targets) == 1 and isinstance(st.targets[0], ast.Name):
+                        d.setdefault(st.targets[0].id, []).append(st.value)
+                return d
+            a, b = arm(n.body), arm(n.orelse)
+            for k in set(a) & set(b):
+                if count[k] == 2 and len(a[k]) == 1 and len(b[k]) == 1 and k not in params and k not in mutated and k not in out:
+                    out[k] = ast.copy_location(ast.IfExp(test=n.test, body=a[k][0], orelse=b[k][0]), n)
+    return out
 
 
 def expand_locals(fnode, expr, depth=4):
